@@ -6,6 +6,35 @@ import os
 ROOT = os.path.dirname(os.path.dirname(os.path.abspath(__file__)))
 
 CHECKS = {
+    "C18": dict(
+        cat="model_checking", engine="VmConfig",
+        text="spec/VmConfig.tla defines, for VMX device sets, OVF reference graphs, VirtualBox media registries and PVS hardware lists, "
+             "the exact disk list; TLC enumerates every configuration in the small scope and each is rendered in several textual styles "
+             "(casing, quoting, order, comments, CRLF, duplicate keys, namespace prefixes, identifier alphabets, noise devices) and parsed "
+             "by the real classes; the reported list must equal the specification's.",
+        note="trusts TLC and the independent renderers; <= 2-3 devices per configuration; 'hard disk' for OVF/VBox is the filter named in "
+             "the property's mechanisms",
+        technique="TLA+ spec + TLC exhaustive enumeration of configurations, replay of rendered configurations into the parsers",
+        design="5/C18"),
+    "C19": dict(
+        cat="fault_enumeration", engine="XmlGuard",
+        text="spec/XmlGuard.tla is the truth table (entity declarations refused, nothing fetched, benign documents parse) over all entry "
+             "points and feature subsets; TLC enumerates its 512 states and each is rendered as a hostile/benign real document (nested "
+             "entity bombs, file:/http: external entities, parameter entities, external DTD subsets; attribute/text use, late DOCTYPE, "
+             "UTF-16/Latin-1 descriptor files) and fed to the real entry point under an audit hook and a watchdog.",
+        note="the model is a small truth table; the substance is the hostile-document replay; defusedxml is the trusted mechanism",
+        technique="TLA+ truth-table spec + TLC enumeration, hostile-document replay under audit hook and watchdog",
+        design="5/C19"),
+    "C20": dict(
+        cat="model_checking", engine="Vmtar",
+        text="spec/Vmtar.tla models the archive layout (headers, inline data, data area) and the reader's cursor rule and TLC checks "
+             "AllListed / NeverLost for all member lists in the small scope; every enumerated member list is written by an independent "
+             "tar writer in several layouts (alignments, gaps, long names/prefixes, nested-tar content, trailing padding, offsets beyond "
+             "2 GiB), plain and gzip-wrapped, and listing + extraction through vmtar.open / VisorTarFile are compared with the stored "
+             "bytes; non-visor archives are compared with the stock tarfile reader; the committed sample is re-encoded and re-read.",
+        note="trusts TLC, the independent header writer and CPython's tarfile as the standard reader; <= 3-4 members",
+        technique="TLA+ spec + TLC exhaustive enumeration of member lists, replay of encoded archives into the reader",
+        design="5/C20"),
     "C10": dict(
         cat="model_checking", engine="Extents",
         text="spec/Extents.tla states Concatenation, SizeIsSum and NoneDropped for extent lists and TLC checks a transcription of "
